@@ -14,6 +14,7 @@ mod codecstream;
 mod easystream;
 mod genstream;
 mod lenstream;
+mod ministream;
 mod tblstream;
 #[cfg(feature = "serde")]
 mod serdestream;
@@ -113,6 +114,7 @@ fn main() {
         "race" => tblstream::stream_race(&mut out, seed, budget),
         #[cfg(feature = "easy")]
         "race-child" => { tblstream::race_child(seed); return; }
+        "mini" => ministream::stream_mini(&mut out, seed, budget),
         "kat" => genstream::stream_kat(&mut out, &format!("{}/kat.txt", corpus)),
         x => {
             eprintln!("unknown stream {}", x);
